@@ -14,8 +14,8 @@ def run(ctx):
                 'same error class; the implementation\'s own decoder must read the values back (round-trip predicate). '
                 'non-trivial = operator or replication in the template.')
     n = ctx.n(500, 12000)
-    cases = P.build_cases(ctx, n, gen_kwargs=dict(size=7), nsub_choices=(1, 1, 2, 3), compressed=False,
-                          versions=(33, 33, 33, 25, 19, 28), editions=(4, 4, 3, 2), shared=False)
+    cases = P.build_cases(ctx, n, gen_kwargs=dict(size=7), nsub_choices=(1, 1, 2, 3), compressed=(False, False, True),
+                          versions=(33, 33, 33, 25, 19, 28), editions=(4, 4, 3, 2))
     P.attach_templates(cases)
     P.run_gen(cases)
     P.run_encode(cases)
